@@ -108,30 +108,9 @@ func runC12(c *Ctx, ev *Evidence) ([]Violation, error) {
 		return nil, err
 	}
 	defer ur.In.Close()
-	nReach := 0
-	res := dischargeAll(ur.In, ev, ur.Obs, func(ob *sym.Obligation) bool {
-		if ob.Kind == "reach" {
-			nReach++
-			return nReach <= 8
-		}
-		return true
-	}, timeout, grace, "C12")
-	reach := 0
 	seen := map[string]bool{}
-	for _, r := range res {
-		if r.Ob.Kind == "reach" {
-			if r.Res.Status == smt.Sat {
-				reach++
-			}
-			continue
-		}
-		switch r.Res.Status {
-		case smt.Unknown:
-			ev.Inconclusive(fmt.Sprintf("C12 obligation on path %d undecided: %s", r.Ob.PathID, r.Res.Note))
-			continue
-		case smt.Unsat:
-			continue
-		}
+	budget := newReplayBudget()
+	v2, reachM, err := c.runUnitObligations(ev, ur, "C12", timeout, grace, func(r UnitResult) (*Violation, error) {
 		var failed []string
 		for k, v := range r.Notes {
 			if strings.HasPrefix(k, "c:") && !v.B {
@@ -140,8 +119,8 @@ func runC12(c *Ctx, ev *Evidence) ([]Violation, error) {
 		}
 		sort.Strings(failed)
 		sig := "conjunct=" + strings.Join(failed, "+")
-		if seen[sig] {
-			continue
+		if seen[sig] || !budget.allow(sig) {
+			return nil, nil
 		}
 		el := r.Notes["el"].S
 		mode := int(r.Notes["mode"].I)
@@ -172,13 +151,18 @@ func runC12(c *Ctx, ev *Evidence) ([]Violation, error) {
 		ev.Sample(map[string]interface{}{"query": "C12 counterexample", "element": el, "mode": mode, "in": in, "model_out": want, "native_out": got, "native_oracle": why})
 		if why == "" {
 			ev.Inconclusive(fmt.Sprintf("C12: model on path %d did not reproduce natively: el=%s in=%q model-out=%q native-out=%q", r.Ob.PathID, el, in, want, got))
-			continue
+			return nil, nil
 		}
 		ev.AddReplayed(1)
 		seen[sig] = true
-		viols = append(viols, Violation{Sig: "site=forced-attributes " + sig, Detail: fmt.Sprintf("<%s> mode=%d allowed=%v in=%q out=%q: %s", el, mode, vals, in, got, why), Replay: []NativeReq{req}})
+		return &Violation{Sig: "site=forced-attributes " + sig, Detail: fmt.Sprintf("<%s> mode=%d allowed=%v in=%q out=%q: %s", el, mode, vals, in, got, why), Replay: []NativeReq{req}}, nil
+	})
+	if err != nil {
+		return nil, err
 	}
-	ev.Sample(map[string]interface{}{"query": "C12 obligations", "paths": len(ur.States), "assertions": len(res) - reach})
+	viols = append(viols, v2...)
+	reach := reachM["C12-emitted-with-attributes"]
+	budget.report(ev, "C12")
 	if reach == 0 {
 		ev.Inconclusive("vacuity: no path on which the element is emitted with attributes is satisfiable")
 	}
